@@ -110,6 +110,11 @@ def check(prog: Program, tier: str) -> Result:
                     problems.append(f"{n_cool} cooling pulse(s) on a path that assumes monthly_peak_cl[i] > 0 is {p.has_cl}")
                 if exp_h is not None and n_heat != exp_h:
                     problems.append(f"{n_heat} heating pulse(s) on a path that assumes monthly_peak_hl[i] > 0 is {p.has_hl}")
+                # a pulse must be backed by the assumption "peak > 0": `>= 0` would place a zero pulse in a month without load
+                if n_cool and p.has_cl is not True:
+                    problems.append("a cooling pulse is emitted on a path that has not established monthly_peak_cl[i] > 0 (a month without rejection gets a pulse)")
+                if n_heat and p.has_hl is not True:
+                    problems.append("a heating pulse is emitted on a path that has not established monthly_peak_hl[i] > 0 (a month without extraction gets a pulse)")
                 if exp_c is None and n_cool == 0 and exp_h is None and n_heat == 0 and len(p.loads) == 1:
                     # retention month whose emission does not depend on the peaks at all
                     problems.append("retention month emits only the average regardless of its peaks")
@@ -755,6 +760,9 @@ _IPF_OLD = '            ipf = [False] * (self.end_month + 1)\n            for i 
 _PRE_OLD = '        hourly_rejection_loads = self.hourly_rejection_loads[hours_in_year - HRS_IN_DAY :] + self.hourly_rejection_loads\n        hourly_extraction_loads = (\n            self.hourly_extraction_loads[hours_in_year - HRS_IN_DAY :] + self.hourly_extraction_loads\n        )\n'
 
 VARIANTS = [
+    Variant("cooling pulse guarded by peak >= 0 (zero pulse in a month without rejection)", "break",
+            [(GL, "                    # monthly average conditions before cooling peak\n                    if self.monthly_peak_cl[i] > 0 and ipf[i]:\n                        # last_avg_hour = first_hour_cooling_peak - 1 JDS corrected 20200604\n                        last_avg_hour = cooling_peak_start",
+              "                    # monthly average conditions before cooling peak\n                    if self.monthly_peak_cl[i] >= 0 and ipf[i]:\n                        # last_avg_hour = first_hour_cooling_peak - 1 JDS corrected 20200604\n                        last_avg_hour = cooling_peak_start")], "R07.1"),
     Variant("flags as a comprehension, last window aligned to whole years (seeded C07_b)", "break",
             [(GL, _IPF_OLD, """            first_year_end = self.start_month + self.peak_retain_start - 1
             last_year_start = (self.end_month - 1) // self.peak_retain_end * self.peak_retain_end + 1
